@@ -60,7 +60,8 @@ class CloseAnalysis(RuleAnalysis):
         self.late = set(late)  # tracked expressions that are only bound inside the function (not owned before that)
 
     def initial(self, fn: FunctionInfo):
-        for n in own_nodes(fn.node):
+        from ..norm import nodes_inl
+        for n, _owner in nodes_inl(fn):  # also the scopes / stacks opened in private helpers that are interpreted in place
             if isinstance(n, (ast.With, ast.AsyncWith)):
                 for it in n.items:
                     ce = it.context_expr
@@ -72,7 +73,7 @@ class CloseAnalysis(RuleAnalysis):
                             self.scopes.add(it.optional_vars.id)
         # local aliases of tracked expressions: `x = self.attr` (single binding)
         binds: dict[str, list[ast.AST]] = {}
-        for n in own_nodes(fn.node):
+        for n, _owner in nodes_inl(fn):
             if isinstance(n, ast.Assign) and len(n.targets) == 1 and isinstance(n.targets[0], ast.Name):
                 binds.setdefault(n.targets[0].id, []).append(n.value)
             elif isinstance(n, (ast.AnnAssign, ast.AugAssign, ast.NamedExpr)) and isinstance(n.target, ast.Name):
